@@ -21,6 +21,7 @@ func main() {
 	list := flag.Bool("list", false, "list functions")
 	all := flag.Bool("all", false, "verify all functions under contract")
 	sweep := flag.String("sweep", "", "zero-annotation safety sweep over functions matching substring")
+	replay := flag.String("replay", "", "re-run a stored replay file")
 	flag.Parse()
 
 	t0 := time.Now()
@@ -54,6 +55,9 @@ func main() {
 	if *keep {
 		cfg.Dir = "/tmp/govc-keep"
 		os.MkdirAll(cfg.Dir, 0o755)
+	}
+	if *replay != "" {
+		os.Exit(replayFile(*repo, *verifDir, *replay))
 	}
 	if *prop != "" {
 		os.Exit(runProperty(p, *prop, *tier, cfg, *verifDir))
